@@ -122,6 +122,12 @@ Theorem C05_level_order : forall items,
 Proof. exact level_order. Qed.
 Print Assumptions C05_level_order.
 
+(* in logfmt mode every record is encoded (the premise of the theorems above is never void) *)
+Theorem C05_total : forall isprint g c msg attrs,
+  e_mode c = ShLogfmt -> exists out, encode isprint g c msg attrs = Some out.
+Proof. exact encode_total. Qed.
+Print Assumptions C05_total.
+
 (* outside the domain by design: a blank Print is one bare line feed (property C02) *)
 Theorem C05_blank_print : forall isprint g c msg attrs,
   e_mode c = ShLogfmt -> blank_print c msg = true -> encode isprint g c msg attrs = Some [x0a].
